@@ -102,6 +102,10 @@ class ConstProperty(PropertyProtocol):
             return f"Union[{lit}, Unset]"
         return lit
 
+    def get_instance_type_string(self) -> str:
+        """`Literal[...]` cannot be used with `isinstance`, so check against the runtime type of the constant"""
+        return type(self.value.raw_value).__name__
+
     def get_imports(self, *, prefix: str) -> set[str]:
         """
         Get a set of import strings that should be included when this property is used somewhere
